@@ -289,6 +289,8 @@ namespace c18
     const VectorType& x, const VectorType& y);
   void transfer_twins_sections(std::ostream& o, const MatrixType& prol, const MatrixType& rest, const MatrixType& trunc,
     const VectorType& x, const VectorType& y);
+  void float_convert_sections(std::ostream& o, const MatrixType& prol, const MatrixType& rest, const MatrixType& trunc,
+    const VectorType& x, const VectorType& y);
   void global_transfer_forbidden(std::ostream& o, int which, const MatrixType& prol, const MatrixType& rest,
     const MatrixType& trunc, const VectorType& x, const VectorType& y);
 
